@@ -107,6 +107,12 @@ func init() {
 	I := intrinsics
 	// ---------------- verifapi ----------------
 	I[apiP+"Engine"] = func(t *Thread, fn *ssa.Function, a []Value) Value { return TTrue }
+	I[apiP+"Tier"] = func(t *Thread, fn *ssa.Function, a []Value) Value {
+		if t.ex.H.Run.Tier == "thorough" {
+			return MkBV(1, 64)
+		}
+		return MkBV(0, 64)
+	}
 	I[apiP+"Byte"] = func(t *Thread, fn *ssa.Function, a []Value) Value {
 		v := t.ex.fresh("in_b", 8)
 		t.ex.input("byte", v)
@@ -225,6 +231,28 @@ func init() {
 			}
 		}
 		return TTrue
+	}
+	I[apiP+"All"] = func(t *Thread, fn *ssa.Function, a []Value) Value {
+		sl := a[0].(*SliceVal)
+		cs := make([]*Term, sl.Len)
+		for i := range cs {
+			cs[i] = sl.Arr.Elem(sl.Off + i).V.(*Term)
+		}
+		return And(cs...)
+	}
+	I[apiP+"Any"] = func(t *Thread, fn *ssa.Function, a []Value) Value {
+		sl := a[0].(*SliceVal)
+		cs := make([]*Term, sl.Len)
+		for i := range cs {
+			cs[i] = sl.Arr.Elem(sl.Off + i).V.(*Term)
+		}
+		return Or(cs...)
+	}
+	I[apiP+"SameBytes"] = func(t *Thread, fn *ssa.Function, a []Value) Value {
+		return eqValue(&StrVal{B: sliceBytes(a[0].(*SliceVal))}, &StrVal{B: sliceBytes(a[1].(*SliceVal))}, nil)
+	}
+	I[apiP+"Ite"] = func(t *Thread, fn *ssa.Function, a []Value) Value {
+		return Ite(a[0].(*Term), a[1].(*Term), a[2].(*Term))
 	}
 	I[apiP+"Unsupported"] = func(t *Thread, fn *ssa.Function, a []Value) Value {
 		unsupportedf("harness: %s", concreteStr(a[0], "reason"))
